@@ -998,6 +998,44 @@ int EGLPNUM_TYPENAME_ILLlib_addrows (
 
 	EGLPNUM_TYPENAME_EGlpNumInitVar (rng);
 
+	/* validate the whole request first: a rejected call changes nothing */
+	for (i = 0; lp && i < num; i++)
+	{
+		if (sense[i] != 'L' && sense[i] != 'G' && sense[i] != 'E' && sense[i] != 'R')
+		{
+			QSlog("illegal sense %c for new row %d", sense[i], i);
+			rval = 1;
+			ILL_CLEANUP;
+		}
+		for (j = 0; j < rmatcnt[i]; j++)
+		{
+			if (rmatind[rmatbeg[i] + j] < 0 || rmatind[rmatbeg[i] + j] >= lp->O->nstruct)
+			{
+				QSlog("column index %d out of range in new row %d", rmatind[rmatbeg[i] + j], i);
+				rval = 1;
+				ILL_CLEANUP;
+			}
+		}
+		if (names && names[i])
+		{
+			if (ILLsymboltab_contains (&lp->O->rowtab, names[i]))
+			{
+				QSlog("row name %s is already in use", names[i]);
+				rval = 1;
+				ILL_CLEANUP;
+			}
+			for (j = 0; j < i; j++)
+			{
+				if (names[j] && strcmp (names[j], names[i]) == 0)
+				{
+					QSlog("row name %s given twice", names[i]);
+					rval = 1;
+					ILL_CLEANUP;
+				}
+			}
+		}
+	}
+
 	if (B == 0 || B->rownorms == 0)
 	{
 		if (factorok)
@@ -2146,7 +2184,39 @@ int EGLPNUM_TYPENAME_ILLlib_addcols (
 	int factorok)
 {
 	int rval = 0;
-	int i;
+	int i, j;
+
+	/* validate the whole request first: a rejected call changes nothing */
+	for (i = 0; lp && i < num; i++)
+	{
+		for (j = 0; j < cmatcnt[i]; j++)
+		{
+			if (cmatind[cmatbeg[i] + j] < 0 || cmatind[cmatbeg[i] + j] >= lp->O->nrows)
+			{
+				QSlog("row index %d out of range in new column %d", cmatind[cmatbeg[i] + j], i);
+				rval = 1;
+				ILL_CLEANUP;
+			}
+		}
+		if (names && names[i])
+		{
+			if (ILLsymboltab_contains (&lp->O->coltab, names[i]))
+			{
+				QSlog("column name %s is already in use", names[i]);
+				rval = 1;
+				ILL_CLEANUP;
+			}
+			for (j = 0; j < i; j++)
+			{
+				if (names[j] && strcmp (names[j], names[i]) == 0)
+				{
+					QSlog("column name %s given twice", names[i]);
+					rval = 1;
+					ILL_CLEANUP;
+				}
+			}
+		}
+	}
 
 	for (i = 0; i < num; i++)
 	{
@@ -2203,6 +2273,22 @@ int EGLPNUM_TYPENAME_ILLlib_addcol (
 	qslp = lp->O;
 	A = &qslp->A;
 	ncols = qslp->ncols;
+
+	for (pind = 0; pind < cnt; pind++)
+	{
+		if (ind[pind] < 0 || ind[pind] >= qslp->nrows)
+		{
+			QSlog("row index %d out of range in new column", ind[pind]);
+			rval = 1;
+			ILL_CLEANUP;
+		}
+	}
+	if (name && ILLsymboltab_contains (&qslp->coltab, name))
+	{
+		QSlog("column name %s is already in use", name);
+		rval = 1;
+		ILL_CLEANUP;
+	}
 
 	if (qslp->rA)
 	{															/* After an addcol call, needs to be updated */
